@@ -117,6 +117,12 @@ func (x *Exec) onMapWrite(st *State, m MapV, key, was *Term, v Value, set bool) 
 func (x *Exec) guardFor(key string) *guardRule {
 	for i := range x.guardRules {
 		g := &x.guardRules[i]
+		if strings.HasPrefix(g.field, "map_") {
+			if strings.Contains(key, g.field) {
+				return g
+			}
+			continue
+		}
 		parts := strings.SplitN(g.field, ".", 2)
 		if len(parts) == 2 {
 			if strings.Contains(key, parts[0]) && (strings.HasSuffix(key, "."+parts[1]) || strings.Contains(key, "."+parts[1]+".")) {
@@ -139,6 +145,15 @@ func (x *Exec) guardCheck(st *State, key string, addr *Term, write bool) {
 		return
 	}
 	ok := false
+	if strings.HasPrefix(g.guard, "confined:") {
+		// only the listed functions (one goroutine's code, or code that runs before it starts) may touch the field
+		allowed := strings.Split(strings.TrimPrefix(g.guard, "confined:"), ",")
+		for _, a := range allowed {
+			if strings.HasSuffix(x.cur.Name, "."+a) || x.cur.Short == a {
+				return
+			}
+		}
+	}
 	if g.guard == "immutable" {
 		// written only before publication: reads need no lock, writes need a fresh object
 		if !write {
